@@ -8,6 +8,7 @@ RULE = ("random histories (length <= 40) over {sleep, wake, set_pixel, draw_iter
         "after every op with the reference controller's sleep state decoded from the commands actually sent; every 0x10/0x11 must be "
         "followed inside its call by >= 120 ms of virtual delay (embedded-hal's default delay_us/delay_ms bodies really run); non-trivial = "
         "history contains >= 2 sleep/wake ops")
+PROPS_FILES = ["C13", "C01E"]      # C01E holds C13E_init_then_history (init of every generated model, then any history)
 TRUSTED = ["Oracle/Controller.v sleep rules (0x10/0x11, 120 ms spacing on the virtual clock)"]
 ASSUMPTIONS = ["virtual time: the sum of requested delays; a real DelayNs waits at least what it is asked (embedded-hal contract)"]
 PER_SHARD = 30
